@@ -181,7 +181,8 @@ def judge(res: dict) -> list:
     if res["outcome"] == "returned" and res["kind"] == "exit" and res.get("fault_reached", True):
         vio.append({"law": "a dying simulator makes run() end with an error", **res})
     # (a process that dies some time AFTER answering a request may die after its last request: run() may then return normally)
-    if res["outcome"] == "returned" and res["kind"] != "exit_idle" and res.get("fault_reached", True) and not res.get("error_logged"):
+    # (KeyboardInterrupt, wherever it is raised, ends run() normally with "Simulation canceled": by design)
+    if res["outcome"] == "returned" and res["kind"] not in ("exit_idle", "kbint") and res.get("fault_reached", True) and not res.get("error_logged"):
         vio.append({"law": "a failing simulator makes run() end with an error or a logged remote error", **res})
     if res.get("elapsed", 0) > 5:
         vio.append({"law": "run() terminates promptly", **res})
@@ -208,7 +209,8 @@ def model_line(res: dict) -> tuple[str, str]:
     remote = res["transport"][res["faulty"]] == "remote"
     if res["outcome"] == "returned":
         reached = res["kind"] == "raise" and remote and any(True for _ in [0])
-        kind = "remote-exception" if (remote and res["kind"] == "raise" and res.get("fault_reached")) else "ok"
+        kind = ("keyboard" if (res["kind"] == "kbint" and res.get("fault_reached")) else
+                "remote-exception" if (remote and res["kind"] == "raise" and res.get("fault_reached")) else "ok")
     else:
         kind = "other"
     stopped = [i for i in range(res["n_sims"]) if res["finalize_counts"][f"S{i}"] >= 1 or
@@ -285,7 +287,22 @@ def enumerate_cases(tier: str, rng):
                 idle.append((3, tr, faulty, index, "exit_idle", None, None, sl))
     if tier == "quick":
         idle = rng.sample(idle, 4)
-    return base + legacy + flavoured + busy + idle
+    # an in-process simulator that raises SystemExit (sys.exit() in a handler) or KeyboardInterrupt: these leave the event loop at
+    # once instead of failing the simulator's task; the other simulators must still be stopped once and the loop closed
+    base_exc = []
+    for n in (2, 3):
+        for faulty in range(n):
+            for index in range(0, 6):
+                for kind in ("sysexit", "kbint"):
+                    tr = ["local"] * n
+                    base_exc.append((n, tr, faulty, index, kind))
+                    if n == 3 and faulty != 1:
+                        tr2 = list(tr)
+                        tr2[1] = "remote"
+                        base_exc.append((n, tr2, faulty, index, kind))
+    if tier == "quick":
+        base_exc = rng.sample(base_exc, 10)
+    return base + legacy + flavoured + busy + idle + base_exc
 
 
 def run_suite(driver, rng, tier: str) -> dict:
@@ -321,7 +338,8 @@ def run_suite(driver, rng, tier: str) -> dict:
                      "a third of the cases (quick) / all cases (thorough) again with the healthy simulators reporting API version 2.0 / 2.2 (adapter-wrapped); "
                      "a quarter (quick) / all (thorough) of the in-process cases again with a hybrid or event-based faulty simulator raising TypeError / KeyError / RuntimeError; "
                      "6 (quick) / 48 (thorough) cases in which a healthy subprocess simulator is in the middle of a 0.4 s step when another simulator fails; "
-                     "4 (quick) / 20 (thorough) cases in which a subprocess simulator dies 50 ms AFTER answering request k, while mosaik has no request outstanding to it (kind exit_idle)" +
+                     "4 (quick) / 20 (thorough) cases in which a subprocess simulator dies 50 ms AFTER answering request k, while mosaik has no request outstanding to it (kind exit_idle); "
+                     "10 (quick) / 84 (thorough) cases in which an in-process simulator raises SystemExit or KeyboardInterrupt in a handler (kinds sysexit, kbint)" +
                      ("; remote cases sampled (14)" if tier == "quick" else "; all remote cases"))}
 
 
